@@ -164,6 +164,11 @@ func verifyPageReachable(p *common.Page, hwm common.Pgid, stack []common.Pgid, r
 			ch <- fmt.Errorf("page %d: multiple references (stack: %v)", int(id), stack)
 		}
 		reachable[id] = p
+
+		// The overflow pages of a reachable page must not be free either.
+		if i > 0 && freed[id] {
+			ch <- fmt.Errorf("page %d: reachable freed", int(id))
+		}
 	}
 
 	// We should only encounter un-freed leaf and branch pages.
